@@ -11,11 +11,12 @@ CONSTANTS Family, MaxItems, MaxC, MaxN, DoExport
 P == INSTANCE PropsBatch
 
 Base == [n |-> 1, c |-> 0, stopmode |-> FALSE, N |-> 1, w |-> 0, fb |-> FALSE, ctx0 |-> FALSE, cancel |-> FALSE,
-         outs |-> {"ok", "err"}, acts |-> {1}, preperr |-> FALSE, posterr |-> FALSE, gated |-> FALSE, strict |-> FALSE]
+         outs |-> {"ok", "err"}, acts |-> {1}, preperr |-> FALSE, posterr |-> FALSE, gated |-> FALSE, strict |-> FALSE, after |-> FALSE]
 
 \* sequential batches: every size, budget, mode, fallback; prep/post failures; empty action
-SeqCfgs == {[Base EXCEPT !.n = n, !.N = k, !.stopmode = s, !.fb = f, !.acts = {0, 1, 2}, !.preperr = TRUE, !.posterr = TRUE] :
-              n \in 0..MaxItems, k \in 1..MaxN, s \in BOOLEAN, f \in BOOLEAN}
+\* (after: the node object runs once more afterwards and the caller looks at the lists post was handed again)
+SeqCfgs == {[Base EXCEPT !.n = n, !.N = k, !.stopmode = s, !.fb = f, !.acts = {0, 1, 2}, !.preperr = TRUE, !.posterr = TRUE, !.after = a] :
+              n \in 0..MaxItems, k \in 1..MaxN, s \in BOOLEAN, f \in BOOLEAN, a \in BOOLEAN}
 \* concurrent batches, every interleaving of the internal steps (design-level check)
 ConcCfgs == {[Base EXCEPT !.n = n, !.c = c, !.N = k, !.stopmode = s, !.fb = f] :
               n \in 1..MaxItems, c \in 1..MaxC, k \in 1..MaxN, s \in BOOLEAN, f \in {FALSE}}
@@ -30,7 +31,7 @@ GatedCancelCfgs == {[x EXCEPT !.gated = TRUE] : x \in CancelCfgs}
 WaitCfgs == {[Base EXCEPT !.n = n, !.c = c, !.N = 2, !.w = 1, !.cancel = TRUE, !.gated = TRUE, !.outs = {"err"}] :
               n \in 1..MaxItems, c \in 0..MaxC}
 \* exec functions that return an error Result with a nil error
-EresCfgs == {[Base EXCEPT !.n = n, !.c = c, !.N = 2, !.stopmode = s, !.outs = {"ok", "err", "eres"}, !.gated = TRUE] :
+EresCfgs == {[Base EXCEPT !.n = n, !.c = c, !.N = 2, !.stopmode = s, !.outs = {"ok", "err", "eres", "nil"}, !.gated = TRUE] :
               n \in 1..MaxItems, c \in 0..MaxC, s \in BOOLEAN}
 \* the empty batch
 EmptyCfgs == {[Base EXCEPT !.n = 0, !.c = c, !.acts = {0, 1, 2}, !.posterr = TRUE] : c \in 0..MaxC}
@@ -50,7 +51,7 @@ MCSpec == MCInit /\ [][Next]_vars
 MCLive == MCInit /\ [][Next]_vars /\ WF_vars(Next)
 Terminates == <>(main.pc = "done")
 
-Terminal == main.pc = "done"
+Terminal == main.pc = "done" /\ ~ENABLED LookAgain
 D == P!Digest(cfg, h)
 InvC06 == Terminal => P!All(P!C06_Clauses(cfg, D))
 InvC07 == Terminal => P!All(P!C07_Clauses(cfg, D))
